@@ -7,6 +7,10 @@ use crate::rng::{hash_strs, Rng};
 use pkgsrc::Pattern;
 
 const LITS: [&str; 10] = ["a", "b", "c", "d", "ab", "-", "1", "x", "", ""];
+/// Rare literals that make an expansion invalid (unclosed '[', too many or
+/// wrongly ordered operators) or change its kind, so that invalid and valid
+/// expansions are mixed inside one alternation.
+const ODD_LITS: [&str; 8] = ["[", ">1>", "<2>", "<", "*", "?", "[0-9]", ">=1<2<3"];
 
 /// (tail text in the pattern, concrete suffixes for names: matching first)
 const TAILS: [(&str, &[&str]); 9] = [
@@ -47,7 +51,11 @@ fn gen_seq(r: &mut Rng, depth: usize, out: &mut String, groups: &mut usize, maxd
             }
             out.push('}');
         } else {
-            out.push_str(LITS[r.below(LITS.len())]);
+            if r.chance(1, 12) {
+                out.push_str(ODD_LITS[r.below(ODD_LITS.len())]);
+            } else {
+                out.push_str(LITS[r.below(LITS.len())]);
+            }
         }
     }
 }
@@ -149,6 +157,11 @@ fn check_case(ev: &mut Ev, p: &str, names: &[String], groups: usize, depth: usiz
         _ => {}
     }
     let Ok(pat) = got else { return Ok(()) };
+    if p.contains("{}") {
+        // acceptance is unambiguous, the meaning of "{}" is not: compile only
+        ev.count("compile/nested-with-empty-group-match-skipped");
+        return Ok(());
+    }
     let ex = expanded(p);
     ev.max("max/expansions", ex.pats.len() as u64);
     ev.count(&format!("groups/{}", groups.min(6)));
@@ -215,14 +228,30 @@ pub fn run(cx: &mut Cx) {
         let mut p = format!("{}{}", g.prefix, tail);
         let unbalance = r.chance(1, 10);
         if unbalance {
-            // delete one character, preferably a brace
             let idx: Vec<usize> = p.char_indices().filter(|(_, c)| matches!(c, '{' | '}')).map(|(i, _)| i).collect();
-            let i = if r.chance(3, 4) { *r.pick(&idx) } else { p.char_indices().nth(r.below(p.chars().count())).unwrap().0 };
-            p.remove(i);
-            if !p.contains('{') && !p.contains('}') {
-                continue;
+            match r.below(4) {
+                0 | 1 => {
+                    // delete one character, preferably a brace
+                    let i = if r.chance(3, 4) { *r.pick(&idx) } else { p.char_indices().nth(r.below(p.chars().count())).unwrap().0 };
+                    p.remove(i);
+                }
+                2 => {
+                    // exchange an opening with a closing brace: the counts
+                    // stay equal, the nesting (usually) breaks
+                    let opens: Vec<usize> = idx.iter().cloned().filter(|&i| p.as_bytes()[i] == b'{').collect();
+                    let closes: Vec<usize> = idx.iter().cloned().filter(|&i| p.as_bytes()[i] == b'}').collect();
+                    let (a, b) = (*r.pick(&opens), *r.pick(&closes));
+                    let mut bytes = p.clone().into_bytes();
+                    bytes.swap(a, b);
+                    p = String::from_utf8(bytes).expect("ascii");
+                }
+                _ => {
+                    // insert a "}{" pair at a brace position (counts equal)
+                    let at = *r.pick(&idx);
+                    p.insert_str(at, if r.chance(1, 2) { "}{" } else { "}a{" });
+                }
             }
-            if p.contains("{}") {
+            if !p.contains('{') && !p.contains('}') {
                 continue;
             }
         }
@@ -288,7 +317,7 @@ pub fn run(cx: &mut Cx) {
                     stack.push(format!("{s}{c}"));
                 }
             }
-            if !(s.contains('{') || s.contains('}')) || s.contains("{}") {
+            if !(s.contains('{') || s.contains('}')) {
                 continue;
             }
             idx += 1;
